@@ -743,6 +743,9 @@ struct Checker<'a> {
     mismatches: Vec<Mismatch>,
     order_only: usize,
     compared: usize,
+    /// compare every entity (true) or only those whose stored commands or
+    /// snapshot changed since they were last compared (false)
+    full: bool,
 }
 
 impl<'a> Checker<'a> {
@@ -825,6 +828,14 @@ impl<'a> Checker<'a> {
         let scope = Ident::from_handle(handle).into_owned();
         let (keys, _, _) = list_command_keys(&kv, &scope, "command-");
         let snapver = snapshot_version(storage, ns, handle, "version");
+        if !self.full
+            && self.last.get(&ent) == Some(&(keys.clone(), snapver))
+        {
+            // nothing stored since the last comparison: both rebuilds
+            // would be what they were (every entity is compared again at
+            // every `full_every`-th check point and at the end)
+            return
+        }
         let mut flags = BTreeMap::new();
         let live_json = live.map(|l| serde_json::to_value(l).unwrap());
         let live_ver = live.map(|l| l.version()).unwrap_or(0);
@@ -1109,6 +1120,11 @@ impl<'a> Checker<'a> {
         let snapver = snapshot_version(
             storage, PUBSERVER_CONTENT_NS, zero, "revision"
         );
+        if !self.full
+            && self.last.get(&ent) == Some(&(keys.clone(), snapver))
+        {
+            return
+        }
         let publishers = krill.repo_manager().publishers().unwrap_or_default();
         let live_view = |what: &str| -> Value {
             let mut lists = BTreeMap::new();
@@ -1239,6 +1255,8 @@ fn run_one(beh: &Value, work: &Path, out: &mut TraceOut) {
     };
     let mut last_seen = BTreeMap::new();
     let mut checks = 0usize;
+    let mut nchecks = 0usize;
+    let full_every = (int_arg(beh, "full_every") as usize).max(1);
     for n in 1..=steps {
         let line = match common::guarded(|| world.do_step(n)) {
             Outcome::Ok(line) => line,
@@ -1263,7 +1281,19 @@ fn run_one(beh: &Value, work: &Path, out: &mut TraceOut) {
         let replay = if memory { None } else {
             let copy = dir.join("replay-copy");
             let _ = fs::remove_dir_all(&copy);
-            match copy_dir(&dir.join("data"), &copy, true) {
+            let mut res = Ok(());
+            for ns in [
+                CASERVER_NS, TA_PROXY_SERVER_NS, TA_SIGNER_SERVER_NS,
+                PUBSERVER_NS,
+            ] {
+                let from = dir.join("data").join(ns.as_str());
+                if from.exists() {
+                    res = res.and(copy_dir(
+                        &from, &copy.join(ns.as_str()), true
+                    ));
+                }
+            }
+            match res {
                 Ok(()) => Some(StorageSystem::new_disk(copy)),
                 Err(e) => {
                     eprintln!("copy failed: {e}");
@@ -1279,7 +1309,9 @@ fn run_one(beh: &Value, work: &Path, out: &mut TraceOut) {
             ).chain(std::iter::once("ta".to_string())).collect(),
             env: world.env(), replay, step: n, lines: Vec::new(),
             mismatches: Vec::new(), order_only: 0, compared: 0,
+            full: nchecks % full_every == 0 || n == steps,
         };
+        nchecks += 1;
         checker.check_all();
         for line in &checker.lines {
             out.push(line);
